@@ -23,7 +23,8 @@ Definition total (l : list th) : nat := fold_right (fun x a => refs x + a) 0 l.
 Definition hbb (m : msg) (c : clock) : bool := Nat.leb (we m) (get c (wt m)).
 Definition hb (m : msg) (c : clock) : Prop := we m <= get c (wt m).
 
-Inductive act := ARead | AWrite | AClone | ARelease | AFree | AProbe (p : nat) | ASpawn (c k : nat) | AJoin (c : nat).
+Inductive act := ARead | AWrite | AClone | ARelease | AFree | AProbe (p : nat) | ASpawn (c k : nat) | AJoin (c : nat)
+                 | AFence | AReadM.
 Inductive err := Race | UAF | DoubleFree.
 Inductive res := Ok (s : st) | Err (e : err) | Stuck.
 
@@ -68,7 +69,8 @@ Definition step (s : st) (t : nat) (a : act) : res :=
             ths := upd (ths s) t {| clk := c'; pend := join (pend x) (view (hdm s)); refs := refs x - 1;
                                     excl := false; mustfree := Nat.eqb (val (hdm s)) 1; started := true |} |}
   | AFree =>
-      if negb (mustfree x) then Stuck else
+      (* dealloc: only by the thread whose decrement read 1, and only after its acquire fence (pend <= clk) *)
+      if negb (mustfree x && cleb (pend x) (clk x)) then Stuck else
       if negb (live s) then Err DoubleFree else
       let c' := tick (join (clk x) (pend x)) t in
       if negb (cleb (Wc s) c' && cleb (Rc s) c') then Err Race else
@@ -98,6 +100,20 @@ Definition step (s : st) (t : nat) (a : act) : res :=
       if Nat.eqb c t || negb (started y) || Nat.ltb 0 (refs y) || mustfree y then Stuck else
       Ok (with_th s t {| clk := tick (join (clk x) (clk y)) t; pend := pend x; refs := refs x; excl := excl x;
                          mustfree := mustfree x; started := true |})
+  | AFence =>
+      (* fence(Acquire): everything released by the messages this thread's relaxed/release RMWs read from becomes
+         visible to it *)
+      Ok (with_th s t {| clk := join (clk x) (pend x); pend := pend x; refs := refs x; excl := excl x;
+                         mustfree := mustfree x; started := true |})
+  | AReadM =>
+      (* read (of the header) by the thread that must free, after its fence and before the dealloc *)
+      if negb (mustfree x && cleb (pend x) (clk x)) then Stuck else
+      if negb (live s) then Err UAF else
+      if negb (cleb (Wc s) (clk x)) then Err Race else
+      let c' := tick (clk x) t in
+      Ok {| msgs := msgs s; Wc := Wc s; Rc := setc (Rc s) t (get c' t); live := live s;
+            ths := upd (ths s) t {| clk := c'; pend := pend x; refs := refs x; excl := excl x;
+                                    mustfree := mustfree x; started := true |} |}
   end.
 
 (* initial state: thread 0 allocated the buffer *)
